@@ -54,9 +54,11 @@ def threadname_records(text: bytes):
     return chunk_text(text, b'')
 
 
-def threadmap_entry(tid, pid, name: bytes):
+def threadmap_entry(tid, pid, name: bytes, junk: bytes = b''):
+    """20-byte C string field: the name, its terminator, then anything (older kernels leave stale bytes there)"""
     assert len(name) <= 19 and b'\x00' not in name
-    return struct.pack('<QI', tid & MASK64, pid & 0xffffffff) + name.ljust(20, b'\x00')
+    field = (name + b'\x00' + junk)[:20].ljust(20, b'\x00')
+    return struct.pack('<QI', tid & MASK64, pid & 0xffffffff) + field
 
 
 V2_MAGIC = b'\x00\x02\xaa\x55'
